@@ -4,6 +4,8 @@ import logging
 
 log = logging.getLogger(__name__)
 
+MAX_RESPONSE_SIZE = 16 * 1024  # a json response header is a few hundred bytes
+
 
 class BlobMessage:
     key = ''
@@ -149,7 +151,7 @@ def _parse_blob_response(response_msg: bytes) -> typing.Tuple[typing.Optional[ty
     curr_pos = 0
     while True:
         next_close_paren = response_msg.find(b'}', curr_pos)
-        if next_close_paren == -1:
+        if next_close_paren == -1 or next_close_paren >= MAX_RESPONSE_SIZE:
             return None, response_msg
         curr_pos = next_close_paren + 1
         try:
